@@ -24,6 +24,9 @@ QEq(x, y) == QSub(x, y).n = RZero
 QRe(x) == [n |-> <<x.n[1], x.n[2], 0, 0>>, d |-> x.d]
 QIm(x) == [n |-> <<x.n[3], x.n[4], 0, 0>>, d |-> x.d]
 QIsReal(x) == x.n[3] = 0 /\ x.n[4] = 0
+(* a + b sqrt2 >= 0 for integers a, b *)
+SNonNeg(a, b) == IF a >= 0 /\ b >= 0 THEN TRUE ELSE IF a <= 0 /\ b <= 0 THEN FALSE
+                 ELSE IF a >= 0 THEN a * a >= 2 * b * b ELSE 2 * b * b >= a * a
 (* inverse in the field Q(sqrt2, i):  1/n = conj(n) (p - q sqrt2) / (p^2 - 2 q^2)  with  n conj(n) = p + q sqrt2 *)
 QInv(x) == LET n == x.n
                nn == RMul(n, RConj(n))                      \* = <<p, q, 0, 0>>
